@@ -195,18 +195,22 @@ def _worker(mod, seed, wid, nworkers, k0, deadline, max_runs, wfd, shm, stop_aft
   k = k0
   last_flush = _rt()
   nviol = 0
+  known = load_known(mod.PROPERTY)
   try:
     while True:
       idx = wid + k * nworkers
       if (max_runs is not None and idx >= max_runs) or _rt() >= deadline:
         break
+      if struct.unpack_from('<q', shm, 8 * nworkers)[0]:
+        break  # the parent has enough violations
       struct.pack_into('<q', shm, 8 * wid, idx)
       tp = tape_mod.Tape(tape_mod.derive_seed(seed, mod.PROPERTY, idx))
       res = run_guarded(mod, tp)
       agg.add(res, idx)
       k += 1
       if res.get('violations'):
-        nviol += 1
+        if any(match_known(known, v) is None for v in res['violations']):
+          nviol += 1
         _send(wfd, ('viol', idx, res['violations'], tp.recorded(), res.get('sample')))
       if res.get('abnormal'):
         _send(wfd, ('abn', idx, res['abnormal']))
@@ -235,7 +239,11 @@ def search(mod, seed, budget_s, max_runs, nworkers, stop_after_viol=3):
   """Seeded search over run indices.  Returns (agg, violations, abnormal, wall)."""
   t0 = _rt()
   deadline = t0 + budget_s
-  shm = mmap.mmap(-1, 8 * nworkers)
+  shm = mmap.mmap(-1, 8 * (nworkers + 1))
+  known = load_known(mod.PROPERTY)
+  n_unknown = [0]
+  n_known_kept = [0]
+  struct.pack_into('<q', shm, 8 * nworkers, 0)
   for w in range(nworkers):
     struct.pack_into('<q', shm, 8 * w, -1)
   workers = {}  # wid -> (pid, reader)
@@ -275,7 +283,15 @@ def search(mod, seed, budget_s, max_runs, nworkers, stop_after_viol=3):
         if msg[0] == 'agg':
           total.merge(msg[1])
         elif msg[0] == 'viol':
-          viols.append({'idx': msg[1], 'violations': msg[2], 'tape': msg[3], 'sample': msg[4]})
+          if any(match_known(known, v) is None for v in msg[2]):
+            n_unknown[0] += 1
+            viols.append({'idx': msg[1], 'violations': msg[2], 'tape': msg[3], 'sample': msg[4]})
+          else:
+            n_known_kept[0] += 1
+            if n_known_kept[0] <= 50:
+              viols.append({'idx': msg[1], 'violations': msg[2], 'tape': msg[3], 'sample': msg[4]})
+            else:
+              viols.append({'idx': msg[1], 'violations': msg[2], 'tape': None, 'sample': None})
         elif msg[0] == 'abn':
           abns.append((msg[1], msg[2]))
         elif msg[0] == 'poison':
@@ -290,7 +306,7 @@ def search(mod, seed, budget_s, max_runs, nworkers, stop_after_viol=3):
           pass
         del workers[wid]
         if finished and finished[0] == 'poison':
-          if _rt() < deadline and len(viols) < stop_after_viol * nworkers and respawns < 5000:
+          if _rt() < deadline and n_unknown[0] < stop_after_viol and respawns < 5000:
             respawns += 1
             spawn(wid, finished[1])
         elif not finished:
@@ -300,20 +316,9 @@ def search(mod, seed, budget_s, max_runs, nworkers, stop_after_viol=3):
             respawns += 1
             k_next = (idx - wid) // nworkers + 1 if idx >= 0 else 0
             spawn(wid, k_next)
-    if len(viols) >= stop_after_viol:
-      # enough material; let workers finish their current run and stop
-      deadline = min(deadline, _rt())
-      for wid, (pid, rd) in list(workers.items()):
-        try:
-          os.kill(pid, signal.SIGTERM)
-        except ProcessLookupError:
-          pass
-        os.close(rd.fd)
-        try:
-          os.waitpid(pid, 0)
-        except ChildProcessError:
-          pass
-        del workers[wid]
+    if n_unknown[0] >= stop_after_viol:
+      # enough material: workers stop after their current run and flush
+      struct.pack_into('<q', shm, 8 * nworkers, 1)
     if _rt() > hard_deadline:
       for wid, (pid, rd) in list(workers.items()):
         idx = struct.unpack_from('<q', shm, 8 * wid)[0]
